@@ -66,6 +66,7 @@ class Run(object):
         self.edge_shapes = set()
         self._kev = []
         self._serial = 0
+        self._dups = []
 
     # ------------------------------------------------------------------ pool helpers
     def _live_buffers(self):
@@ -159,6 +160,8 @@ class Run(object):
         if isinstance(obj, self.TT):
             if not any(o is obj for o in out):
                 out.append(obj)
+            else:
+                self._dups.append(obj)     # the same object at two places of one return value
         elif isinstance(obj, (list, tuple)) and depth < 4:
             for x in obj:
                 self._collect(x, out, depth + 1)
@@ -296,11 +299,16 @@ class Run(object):
             self.nontrivial = True
         # O3 on everything returned
         results = []
+        self._dups = []
         self._collect(out, results)
         for t in results:
             p = M.structural_problem(t)
             if p is not None:
                 self._viol("inconsistent-result(%s)" % api, "O3", {"problem": p})
+        if self._dups:
+            # several entries of one return value (states of a trajectory, eigentensors of several index sets) that are
+            # ONE object cannot hold different values, and an in-place call on one entry is a call on the others
+            self._viol("duplicate-result(%s)" % api, "identity", {"times": len(self._dups) + 1, "distinct_results": len(results)})
         # O1 on everybody but the documented in-place target
         self._check_O1(api, flat_roles, target, pre_edges)
         if exc is not None:
